@@ -80,6 +80,12 @@ class StmtMixin:
 
     def st_Assign(self, stmt, st):
         def done(v, s):
+            if isinstance(v, Val) and v.ty[0] == "opt" and any(isinstance(t, (ast.Tuple, ast.List)) for t in stmt.targets):
+                return self.split(s, opt_is_none(v), lambda s2: self.raise_exc(s2, "TypeError", "cannot unpack None"),
+                                  lambda s2: assign_all(v, s2), label="none?")
+            return assign_all(v, s)
+
+        def assign_all(v, s):
             for t in stmt.targets:
                 self.assign_target(t, v, s)
             return [(N_, s)]
@@ -153,8 +159,7 @@ class StmtMixin:
                 raise Unsupported("unpack arity")
             return [tup_get(v, i) for i in range(n)]
         if isinstance(v, Val) and v.ty[0] == "opt" and v.ty[1][0] == "tup":
-            # caller must have excluded None (TypeError otherwise): we require it provably
-            st.assume(z3.Not(opt_is_none(v)))
+            # unpacking None is a TypeError: that path is split off by st_Assign (see unpack_guard)
             return self.unpack(opt_val(v), n, st)
         raise Unsupported("cannot unpack %r" % (v,))
 
